@@ -357,13 +357,15 @@ func extractDbLocks(repo, gen, facts string) {
 			res[name] = out
 		}
 	}
+	metaOps := dbMetaOps(w.methods)
 	type fact struct {
-		Programs map[string][]string `json:"programs"`
-		Fields   [][2]string         `json:"dbimpl_fields"`
-		PkgVars  []string            `json:"db_go_package_vars"`
-		Notes    []string            `json:"notes,omitempty"`
+		Programs map[string][]string     `json:"programs"`
+		Fields   [][2]string             `json:"dbimpl_fields"`
+		PkgVars  []string                `json:"db_go_package_vars"`
+		MetaOps  map[string][]dbMetaStep `json:"meta_ops"`
+		Notes    []string                `json:"notes,omitempty"`
 	}
-	js, _ := json.MarshalIndent(fact{res, fields, pkgVars, w.note}, "", " ")
+	js, _ := json.MarshalIndent(fact{res, fields, pkgVars, metaOps, w.note}, "", " ")
 	writeIfChanged(filepath.Join(facts, "dblocks.json"), string(js)+"\n")
 
 	var b strings.Builder
@@ -403,6 +405,8 @@ func extractDbLocks(repo, gen, facts string) {
 		}
 		fmt.Fprintf(&b, "%q", v)
 	}
-	b.WriteString("]\nend StorageModel.Generated\n")
+	b.WriteString("]\n")
+	b.WriteString(dbMetaOpsLean(metaOps))
+	b.WriteString("end StorageModel.Generated\n")
 	writeIfChanged(filepath.Join(gen, "DbLocks.lean"), b.String())
 }
